@@ -414,22 +414,22 @@ class Eng:
         return self.M.in_field(int.from_bytes(b, "little"))
 
     def read3(self, c, op="?", al="none"):
-        """projective result -> affine.  O is recognised the way ec.h defines it (Z == 0, the ecIsO macro);
-        an O whose X or Y is not a field element cannot be handed to any other function of the interface
-        (every one has the precondition "coordinates lie in the base field"), which is reported;
-        everything else goes through toa"""
+        """projective result -> affine through toa (FALSE means O).  Regression guard for the former
+        "result is O with unwritten X, Y" defect: an O (Z == 0, the ecIsO macro) whose X or Y is not a field
+        element cannot be handed to any function of the interface; it is reported and not passed to toa."""
         lib, nb = self.lib, self.nb
         raw = lib.rd(c, 3 * nb)
-        if not any(raw[2 * nb:]):
-            if not (self.raw_in_field(raw[:nb]) and self.raw_in_field(raw[nb:2 * nb])):
-                self.bad(self.nm.get(op, op), "O-result-with-coordinates-outside-field", "fresh-output-buffer",
-                         {"op": op, "alias": al, "X_words": raw[:nb].hex(), "Y_words": raw[nb:2 * nb].hex(),
-                          "note": "only Z is written on the result-is-O path; X, Y keep the previous buffer contents"})
+        zero_z = not any(raw[2 * nb:])
+        if zero_z and not (self.raw_in_field(raw[:nb]) and self.raw_in_field(raw[nb:2 * nb])):
+            self.bad(self.nm.get(op, op), "O-result-with-coordinates-outside-field", "fresh-output-buffer",
+                     {"op": op, "alias": al, "X_words": raw[:nb].hex(), "Y_words": raw[nb:2 * nb].hex()})
             return None
         out = lib.alloc(2 * nb)
         r = self.fn["toa"](out, c, self.ec, self.stack())
-        if r != 1:
-            return ("toa-returned", r)
+        if r == 0:
+            return None if zero_z else ("toa-returned-FALSE-for-Z!=0",)
+        if r != 1 or zero_z:
+            return ("toa-returned", r, "Z=0" if zero_z else "Z!=0")
         return self.dec2(lib.rd(out, 2 * nb))
 
     # ---- verdicts ----
@@ -545,21 +545,12 @@ class Eng:
             return ("returned", r)
         return self.dec2(lib.rd(c, 2 * self.nb))
 
-    def op_nega(self, A2, adjacent=False, spaced=True):
-        """NegA asserts wwIsSameOrDisjoint(a, b, 3n) on 2n-word points (current tree), so two exact-size heap
-        blocks that the allocator happens to place closer than 3n words abort.  The bulk keeps spacer blocks
-        between a and b; the demo job runs the neighbouring placements."""
+    def op_nega(self, A2, adjacent=False):
         lib = self.lib
         if adjacent:
             # two consecutive affine points of one array: a = pts[0], b = pts[1]
             a = lib.mk(A2 + self.fillw * 2)
             b = a + 2 * self.nb
-        elif spaced:
-            a = lib.mk(A2)
-            lib.alloc(2 * self.nb), lib.alloc(2 * self.nb), lib.alloc(2 * self.nb)
-            b = lib.alloc(2 * self.nb)
-            if abs(b - a) < 3 * self.nb:
-                b = lib.alloc(2 * self.nb + 0)
         else:
             a, b = lib.mk(A2), lib.alloc(2 * self.nb)
         self.NegA(b, a, self.ec)
@@ -682,7 +673,7 @@ class Scal:
         self.e = eng
         self.lib = eng.lib
 
-    def mul(self, P, d, mbits, zero_stack=False):
+    def mul(self, P, d, mbits):
         e, lib = self.e, self.lib
         m = words_for(lib, mbits)
         if d >> (m * lib.B):
@@ -690,7 +681,7 @@ class Scal:
         b = lib.alloc(2 * e.nb)
         A2 = e.enc2(P)
         a = lib.mk(A2)
-        st = lib.alloc(lib.ecMulA_deep(e.n, 3, e.deep, m), 0 if zero_stack else None)
+        st = lib.alloc(lib.ecMulA_deep(e.n, 3, e.deep, m))
         r = lib.ecMulA(b, a, e.ec, lib.mkw(d, m), m, st)
         e.unchanged("ecMulA", a, A2, "-", "none")
         e.ops["naf-w%d" % naf_width(m * lib.B)] += 1
@@ -700,14 +691,14 @@ class Scal:
             return ("returned", r)
         return e.dec2(lib.rd(b, 2 * e.nb))
 
-    def addmul(self, terms, zero_stack=True):
+    def addmul(self, terms):
         """terms: list of (P, d, mbits)"""
         e, lib = self.e, self.lib
         k = len(terms)
         ms = [words_for(lib, t[2]) for t in terms]
         deep = lib.ecAddMulA_deep(sz(e.n), sz(3), sz(e.deep), sz(k), *[sz(m) for m in ms])
         b = lib.alloc(2 * e.nb)
-        st = lib.alloc(deep, 0 if zero_stack else None)
+        st = lib.alloc(deep)
         args = [VP(b), VP(e.ec), VP(st), sz(k)]
         for (P, d, _), m in zip(terms, ms):
             if d >> (m * lib.B):
@@ -721,10 +712,10 @@ class Scal:
             return ("returned", r)
         return e.dec2(lib.rd(b, 2 * e.nb))
 
-    def hasorder(self, P, q, mbits, zero_stack=False):
+    def hasorder(self, P, q, mbits):
         e, lib = self.e, self.lib
         m = words_for(lib, mbits)
-        st = lib.alloc(lib.ecHasOrderA_deep(e.n, 3, e.deep, m), 0 if zero_stack else None)
+        st = lib.alloc(lib.ecHasOrderA_deep(e.n, 3, e.deep, m))
         r = lib.ecHasOrderA(lib.mk(e.enc2(P)), e.ec, lib.mkw(q, m), m, st)
         return r
 
@@ -754,19 +745,16 @@ def scalar_cls(d, order):
 
 
 def at_risk(order):
-    """ecMulA's table of odd multiples (and 2a) contains O for these orders; on the current tree such an O keeps
-    uninitialised X, Y taken from the scratch stack and the next ASSERT(ecpSeemsOn3) fires depending on the
-    stack contents.  The bulk of such cases runs on a zeroed stack so that the functional result stays
-    observable; run_demo() executes representatives on the ordinary pattern-filled stack."""
+    """ecMulA's table of odd multiples (and 2a) contains O for these orders (class label only; these were the
+    cases that died in ASSERT(ecpSeemsOn3) before O was written with all coordinates)"""
     return order == 2 or (order % 2 == 1 and order <= 31)
 
 
-def check_mul(ctx, eng, sc, P, order, d, mbits, exp, extra="", zero=None):
+def check_mul(ctx, eng, sc, P, order, d, mbits, exp, extra=""):
     """one ecMulA case (already announced); returns result"""
-    zero = at_risk(order) if zero is None else zero
-    if zero:
-        eng.ops["stack:zeroed(table-contains-O)"] += 1
-    got = sc.mul(P, d, mbits, zero)
+    if at_risk(order):
+        eng.ops["mul:table-contains-O"] += 1
+    got = sc.mul(P, d, mbits)
     cls = scalar_cls(d, order)
     if got != exp:
         cat = "infinity-flag" if (got is None) != (exp is None) else "wrong-result"
@@ -776,8 +764,8 @@ def check_mul(ctx, eng, sc, P, order, d, mbits, exp, extra="", zero=None):
     return got
 
 
-def check_addmul(ctx, eng, sc, terms, exp, cls, zero=True):
-    got = sc.addmul(terms, zero)
+def check_addmul(ctx, eng, sc, terms, exp, cls):
+    got = sc.addmul(terms)
     if got != exp:
         cat = "infinity-flag" if (got is None) != (exp is None) else "wrong-result"
         eng.bad("ecAddMulA", cat, cls, {"terms": [[t[0], t[1], t[2]] for t in terms], "expected": exp, "got": got})
@@ -787,7 +775,7 @@ def check_addmul(ctx, eng, sc, terms, exp, cls, zero=True):
 def check_hasorder(ctx, eng, sc, P, order, q, mbits):
     """header: TRUE iff a has order q, with the documented tolerance: for composite q a point whose
     order is a proper divisor of q may be accepted"""
-    r = sc.hasorder(P, q, mbits, at_risk(order))
+    r = sc.hasorder(P, q, mbits)
     if q == order:
         exp, cls = 1, "q=order"
     elif q % order == 0:
@@ -904,15 +892,7 @@ def run_addmul(ctx, eng, sc, cand, label, count):
                 for d2 in g2:
                     if d1 >= 0 and d2 >= 0:
                         grids.append([(P1, d1, 32), (P2, d2, 32)])
-    def risky_tail(terms):
-        # a later term's table is carved out of scratch memory that earlier terms used for temporaries; if that
-        # table contains O (order 2 / small odd order) its unwritten X, Y are those leftovers and the ASSERTs of
-        # the current tree fire.  Representatives run in the demo job.
-        return any(at_risk(point_ord[t[0]]) for t in terms[1:])
-
     for terms in grids:
-        if risky_tail(terms):
-            continue
         exp = expect(terms)
         cls = "k2-grid" + ("/sum=O" if exp is None else "")
         if not ctx.case(["addmul", label, [list(t) for t in terms]], "addmul:" + cls):
@@ -936,8 +916,6 @@ def run_addmul(ctx, eng, sc, cand, label, count):
             o = point_ord[P]
             comp = (o - d % o) % o + o * rng.randrange(3)
             terms = [(P, d, mb), (P, comp, max(32, 32 * ((comp.bit_length() + 31) // 32)))]
-        if risky_tail(terms):
-            terms = terms[:1]
         exp = expect(terms)
         cls = "k%d-mixed" % len(terms) + ("/sum=O" if exp is None else "")
         if not ctx.case(["addmul", label, [list(t) for t in terms]], "addmul:" + cls):
@@ -948,8 +926,9 @@ def run_addmul(ctx, eng, sc, cand, label, count):
 
 
 def run_demo(ctx, eng, sc, cand, label):
-    """representatives of the cases whose bulk runs on a zeroed stack, here on the pattern-filled stack,
-    plus: the O produced by dbl into a fresh buffer handed to toa.  Placed last in a unit."""
+    """regression cases for defects fixed in /repo (stable class labels): ecMulA on points whose table contains O,
+    ecAddMulA (t starts as O on scratch memory), a small-order point in a later ecAddMulA term, the O produced
+    by dbl into a fresh buffer handed to toa"""
     M, lib = eng.M, ctx.lib
     done = set()
     for P, o in cand:
@@ -959,14 +938,14 @@ def run_demo(ctx, eng, sc, cand, label):
         done.add(kind)
         for d, mb in ((11, 64),):
             if ctx.case(["demo-mul", label, P, o, d, mb], "demo:mul-pattern-stack/" + kind):
-                got = check_mul(ctx, eng, sc, P, o, d, mb, M.mul(d % o, P), "/pattern-stack", zero=False)
+                got = check_mul(ctx, eng, sc, P, o, d, mb, M.mul(d % o, P), "/pattern-stack")
                 ctx.digest(repr(got))
                 lib.release()
     P, o = cand[0]
     terms = [(P, 3, 32), (cand[-1][0], 5, 32)]
     if ctx.case(["demo-addmul", label, [list(t) for t in terms]], "demo:addmul-pattern-stack"):
         exp = M.add(M.mul(3, P), M.mul(5, cand[-1][0]))
-        got = check_addmul(ctx, eng, sc, terms, exp, "pattern-stack", zero=False)
+        got = check_addmul(ctx, eng, sc, terms, exp, "pattern-stack")
         ctx.digest(repr(got))
         lib.release()
     for Pr, o in cand:
@@ -974,7 +953,7 @@ def run_demo(ctx, eng, sc, cand, label):
             terms = [(P, 3, 32), (Pr, 5, 32)]
             if ctx.case(["demo-addmul-tail", label, [list(t) for t in terms]], "demo:addmul-small-order-point-in-later-term"):
                 exp = M.add(M.mul(3, P), M.mul(5 % o, Pr))
-                got = check_addmul(ctx, eng, sc, terms, exp, "small-order-point-in-later-term", zero=True)
+                got = check_addmul(ctx, eng, sc, terms, exp, "small-order-point-in-later-term")
                 ctx.digest(repr(got))
                 lib.release()
             break
@@ -1069,10 +1048,10 @@ def run_ison(ctx, eng, sc, pts, label, exhaustive, nrand):
         outs = [("p", M.p), ("p+1", M.p + 1), ("all-ones", top - 1), ("p+x", M.p + aff[0][0]), ("p+y", M.p + aff[0][1]),
                 ("2p", 2 * M.p)]
     else:
-        # values in [2^m, mod) are in the demo job (run_ison_gap): on the current tree they pass the library's
-        # range test (numeric comparison with mod) and then die in an ASSERT of the field multiplication
+        # includes values in [2^m, mod): degree m but numerically below the modulus
         fp = M.fpoly
-        outs = [("mod", fp), ("mod+1", fp + 1), ("mod|x^(m-1)", fp | (1 << (M.m - 1))), ("all-ones", top - 1)]
+        outs = [("mod", fp), ("mod+1", fp + 1), ("mod|x^(m-1)", fp | (1 << (M.m - 1))), ("all-ones", top - 1),
+                ("x^m", 1 << M.m), ("x^m+1", (1 << M.m) | 1), ("x^m+x", (1 << M.m) | 2)]
     for P in aff:
         for name, v in outs:
             for pos in (0, 1):
@@ -1292,7 +1271,7 @@ def demo_common(ctx, eng, sc, cand, label):
         ctx.digest(repr(got))
         ctx.lib.release()
     if ctx.case(["nega-consecutive-allocations", label, P], "nega:consecutive-heap-blocks"):
-        got = eng.op_nega(eng.enc2(P), spaced=False)
+        got = eng.op_nega(eng.enc2(P))
         eng.cmp(eng.pre + "NegA", M.neg(P), got, "consecutive-heap-blocks", "none", {"P": P})
         ctx.digest(repr(got))
         ctx.lib.release()
@@ -1870,8 +1849,8 @@ def unit_std(ctx):
                   [(K, r2, fb), (G, r1, fb), (K, q - r2, fb), (nG, r1, fb)], [(G, 2, 32), (G, 3, 32)],
                   [(G, (1 << 64) - 1, 64), (K, 1 << 63, 64)], [(K, r3, fb + 32)], [(G, 2 * q, fb + 32), (G, 5, 32)]]
         if T is not None:
-            # T (order two) only as first term: see risky_tail() in run_addmul
-            combos += [[(T, 2, 32)], [(T, 1, 32), (G, r1, fb)], [(T, 3, 32), (pts[-1][0], q, fb)],
+            combos += [[(T, 2, 32)], [(T, 1, 32), (T, 1, 32)], [(G, r1, fb), (T, 1, 32)], [(pts[-1][0], q, fb), (T, 3, 32)],
+                       [(T, 1, 32), (G, r1, fb)],
                        [(pts[-1][0], 2 * q, fb + 32)], [(T, r2, fb), (G, r1, fb)]]
         for terms in combos:
             exp = None
@@ -2132,12 +2111,11 @@ def main(run):
              "(complete point sets of small curves / small subgroups of multi-word curves, boundary scalars)",
         assumptions=[
             "O is any (X : Y : 0) with X, Y in the field (ec.h: Z == 0, ecSetO/ecIsO touch only Z)",
-            "a result with Z == 0 is read as O without toa; its X, Y are only checked for field membership",
-            "ecMulA/ecHasOrderA on points whose table of odd multiples contains O (order 2 or odd order <= 31) and all "
-            "ecAddMulA calls run on a zero-filled stack in the bulk (on the current tree ASSERT(ecpSeemsOn3/ec2SeemsOn3) "
-            "otherwise depends on the stack contents); representatives on the pattern-filled stack are in the demo jobs",
-            "ecpNegA/ec2NegA bulk cases keep spacer blocks between the two exact-size buffers; neighbouring placements are "
-            "in the demo jobs",
+            "every projective result goes through toa; an O result whose X, Y are not field elements is reported instead "
+            "(it cannot be passed to any function of the interface)",
+            "all stacks are exactly _deep() octets and pattern-filled, all buffers exactly sized and consecutively "
+            "allocated; the demo jobs are regression cases for the defects fixed in /repo (classes demo:*, nega:*, "
+            "ison:degree-m-coordinate-below-mod)",
             "ecHasOrderA: for composite q a point of order q1 | q may be accepted (header), no verdict there",
             "SWU model = STB 34.101.66 6.2.3 as restated in ecp.c, anchored on the bakeSWU vector of bake_test.c; "
             "for non-residue B the outputs for s in {0, 1, p-1} are only compared with the model",
